@@ -53,6 +53,7 @@ def mkFloatCfg (kind : String) (kv : KV) (factor : Rat) : Option (Cfg F) :=
     let (low, high) := daubLowHigh (F := F) raw
     pure (.synthesize low.reverse high.reverse)
   | "convolve" => (kv.get "c").bind (fun s => (fparseList s).map .convolve)
+  | "convolve_norm" => (kv.get "c").bind (fun s => (fparseList s).map (fun c => .convolve (normalizeF c)))
   | "ema" => do pure (.ema (← (kv.get "w").bind FloatLike.parse))
   | "emedian" => do
     pure (.emedian (← (kv.get "pre").bind FloatLike.parse) (← (kv.get "mid").bind FloatLike.parse)
@@ -210,6 +211,37 @@ def firstUnchanged (name : String) (h : List (List F)) (y : List F) : List Claus
     [clauseP name (toBitsNat x == toBitsNat o || (FloatLike.isNaN x && FloatLike.isNaN o)) (FloatLike.render x)]
   | _, _ => []
 
+/-- "a constant signal is reproduced exactly" at a float type: a finite non-zero sample repeated from the start comes back
+bit for bit whatever the (finite) gains — `x + (x − x)·w = x + 0 = x` in IEEE arithmetic, at any magnitude -/
+def constantExact (name : String) (gains : List F) (h : List (List F)) (y : List F) : List Clause :=
+  match fheads h, y with
+  | x :: rest, [o] =>
+    (match FloatLike.toRat x with
+     | some r =>
+       if r != 0 && rest.all (fun v => toBitsNat v == toBitsNat x) && gains.all (fun g => (FloatLike.toRat g).isSome) then
+         [clauseP name (toBitsNat o == toBitsNat x) (FloatLike.render x)]
+       else []
+     | none => [])
+  | _, _ => []
+
+/-- "unit gain for constant signals whenever the coefficient sum is non-zero" at a float type: a kernel handed to the
+normalising constructor with a non-zero sum — however small in absolute terms — reproduces a constant signal up to the
+rounding of the `n` divisions and the `n`-term dot product (relative to the kernel's conditioning `Σ|cᵢ| / |Σcᵢ|`) -/
+def unitGainF (raw : List F) (h : List (List F)) (y : List F) : List Clause :=
+  match ratsOf raw, ratsOf (fheads h), y with
+  | some cq, some (x :: rest), [yf] =>
+    let s := Spec.sum cq
+    if s == 0 || !(rest.all (· == x)) then [] else
+    (match FloatLike.toRat yf with
+     | none => []
+     | some yq =>
+       let u : Rat := mkRat 1 (2 ^ mantBits F)
+       let cond : Rat := Spec.sum (cq.map absQ) / absQ s
+       let tol : Rat := ((2 * cq.length + 6 : Nat) : Rat) * u * cond * absQ x
+         + ((2 * cq.length + 2 : Nat) : Rat) * mkRat 1 (2 ^ (2 ^ (expBits F - 1) - 2 + mantBits F))
+       [clauseP "C05.normalized-unit-gain" (absQ (yq - x) ≤ tol) s!"{FloatLike.render ((fheads h).headD yf)} up to rounding"])
+  | _, _, _ => []
+
 /-- the generic recursive filters run at a float type: the exact-rational runs carry their properties; here only what
 is literally about values is asserted, the rounding of later outputs is not compared -/
 def looseKind : St F → Bool
@@ -240,8 +272,9 @@ def specIntF (h : List (List F)) (y : List F) : List Clause :=
 def specFloat (getPartnerInputs : Option (List F)) : St F → List (List F) → List F → Bool → List Clause
   | .differentiate _, h, y, _ => specDiffF h y
   | .integrate _, h, y, _ => specIntF h y
-  | .ema _ _, h, y, _ => firstUnchanged "C13.first-sample-unchanged" h y
-  | .emedian _ _ _ _, h, y, _ => firstUnchanged "C13.first-sample-unchanged" h y
+  | .ema w _, h, y, _ => firstUnchanged "C13.first-sample-unchanged" h y ++ constantExact "C13.constant-exact" [w] h y
+  | .emedian p m q _, h, y, _ =>
+    firstUnchanged "C13.first-sample-unchanged" h y ++ constantExact "C13.constant-exact" [p, m, q] h y
   | .alphaBeta _ _ _, h, y, _ => firstUnchanged "C14.first-sample-unchanged" h y
   | .hampel t f med, h, y, _ => specHampel med.buffer.length t f h y
   | .convolve c _, h, y, preset => specConvF c h y preset
@@ -270,7 +303,8 @@ def stepFloatTable (tbl : List (Nat × FInst F)) (factor : Rat) (typeTag : Strin
     let cfg ← mkFloatCfg (F := F) kind kv factor
     let id ← id.toNat?
     let d := d.flag s!"float.{kind}"
-    done (put id { st := cfg.init, partner := kv.nat "src" }) (report d op { model := "ok", impl := implS, kind := kind })
+    let raw : List F := if kind == "convolve_norm" then ((kv.get "c").bind fparseList).getD [] else []
+    done (put id { st := cfg.init, partner := kv.nat "src", raw := raw }) (report d op { model := "ok", impl := implS, kind := kind })
   | "f" :: id :: args => do
     let id ← id.toNat?
     let inst ← get id
@@ -288,7 +322,7 @@ def stepFloatTable (tbl : List (Nat × FInst F)) (factor : Rat) (typeTag : Strin
         if sameBits pi.outs hist then some (fheads pi.hist) else none))
       let preset := true
       let clauses := match implOut with
-        | some yi => specFloat partnerInputs st' hist yi preset
+        | some yi => specFloat partnerInputs st' hist yi preset ++ (if inst.raw.isEmpty then [] else unitGainF inst.raw hist yi)
         | none => [clauseP "no-panic" false (frenderOut (some y))]
       let d := d.flag (if hist.length > 1 then "multi" else "first")
       let d := match clauses.find? (fun c => c.name == "C18.outlier-replaced") with | some _ => d.flag "hampel.outlier" | none => d
@@ -364,7 +398,9 @@ def stepI64Op (d : DState) (op : String) (toks impl : List String) : Option (DSt
   match toks with
   | "new" :: id :: "mean" :: rest =>
     let kv := parseKV rest
-    if kv.get "T" != some "i64" then none else do
+    -- (`u8` / `i8`: the same arithmetic wherever the type's bounds are not reached — the workloads at those types keep
+    -- every sum the filter forms, and the weight, within them)
+    if !(["i64", "u8", "i8"].contains ((kv.get "T").getD "")) then none else do
     let n ← kv.nat "N"
     some (report ((put d (← id.toNat?) { st := (Cfg.mean n : Cfg I64).init }).flag "i64") op { model := "ok", impl := implS, kind := "mean-i64" })
   | "new" :: id :: kind :: rest =>
